@@ -291,7 +291,50 @@ func replayRace(P *Program, full string) (bool, string) {
 	return false, fmt.Sprintf("`go test -race` of %s did not report a race in %s (exit: %v)", pkgDir, short, err)
 }
 
+// CustomReplay: a hand-written executable witness kept in /verif/replay_tests (registered in props.json) for
+// obligations whose violation cannot be replayed from a solver model (ghost checks inside big functions).
+// The test asserts the property on the real code and fails (printing GOVC-REPLAY-REPRODUCED) when it is broken.
+type CustomReplay struct {
+	Match string `json:"match"` // substring of the obligation name
+	Pkg   string `json:"pkg"`   // package directory relative to /repo
+	File  string `json:"file"`  // test file relative to /verif
+	Run   string `json:"run"`   // -run pattern
+}
+
+var customReplays []CustomReplay
+
+func runCustomReplay(cr CustomReplay) (bool, string) {
+	pkgDir := filepath.Join(repoRoot, cr.Pkg)
+	testFile := filepath.Join(verifRoot, cr.File)
+	ov := map[string]map[string]string{"Replace": {filepath.Join(pkgDir, "zz_govc_replay_test.go"): testFile}}
+	ovData, _ := json.Marshal(ov)
+	dir := filepath.Join(verifRoot, "replays")
+	os.MkdirAll(dir, 0o755)
+	ovFile := filepath.Join(dir, "custom_overlay_"+sanitize(cr.Match)+".json")
+	os.WriteFile(ovFile, ovData, 0o644)
+	ctx, cancel := context.WithTimeout(context.Background(), 10*time.Minute)
+	defer cancel()
+	cmd := exec.CommandContext(ctx, "go", "test", "-overlay", ovFile, "-vet=off", "-count=1", "-timeout", "120s", "-run", cr.Run, ".")
+	cmd.Dir = pkgDir
+	cmd.Env = goEnv()
+	var buf bytes.Buffer
+	cmd.Stdout, cmd.Stderr = &buf, &buf
+	err := cmd.Run()
+	out := buf.String()
+	for _, ln := range strings.Split(out, "\n") {
+		if strings.Contains(ln, "GOVC-REPLAY-REPRODUCED") {
+			return true, fmt.Sprintf("witness test %s (%s) run against the real package %s fails: %s  => REPRODUCED on the real code", cr.File, cr.Run, cr.Pkg, strings.TrimSpace(ln))
+		}
+	}
+	return false, fmt.Sprintf("witness test %s (%s) did not reproduce the violation on the real package (go test: %v)", cr.File, cr.Run, err)
+}
+
 func tryReplay(P *Program, id string, r *oblRun) (bool, string) {
+	for _, cr := range customReplays {
+		if strings.Contains(r.o.Name, cr.Match) {
+			return runCustomReplay(cr)
+		}
+	}
 	if r.o.Kind == "forkjoin" && r.res.Status == "sat" {
 		return replayRace(P, r.o.Func)
 	}
